@@ -84,6 +84,7 @@ type Interp struct {
 	typeVals map[string]Value
 	chanUndo []chanUndoRec
 	deferCall bool
+	syncMaps map[*Value]*Map
 	lateCache map[*ssa.Return][]bool
 }
 
